@@ -1255,8 +1255,13 @@ def mapcache_part(ck, tier):
     holes = os.path.join(MAPROOT, "LGSVL", "borregasave.xodr")
     universe = option_universe()
     inter_opts = [{}] + [o for o in universe if "fill_intersections" in o]
+    # the pairs map must make every option that has any effect on a small map observable: on
+    # suspect_geometries tolerance, ref_points and elide_short_roads (a road shorter than the tolerance) all
+    # change the network; fill_intersections needs a map with holes in an intersection (borregasave);
+    # fill_gaps changes no Network attribute on any shipped map (see notes)
+    tiny_pairs = os.path.join(MAPROOT, "misc", "suspect_geometries.xodr")
     specs = [("free", tiny, [CACHE_OPTS[i] for i in range(1, nopts + 1)], 2),
-             ("pairs", tiny, universe, 2),
+             ("pairs", tiny_pairs, universe, 2),
              ("pairs-intersections", holes, inter_opts, 1)]
     if not quick:
         specs.append(("free2", os.path.join(MAPROOT, "opendrive.org", "CulDeSac.xodr"), [CACHE_OPTS[i] for i in range(1, nopts + 1)], 2))
@@ -1289,6 +1294,8 @@ def mapcache_part(ck, tier):
 
     if cls("pairs", {"tolerance": 0}) in (None, cls("pairs", {})) or cls("pairs", {"tolerance": 0.0}) in (None, cls("pairs", {})):
         raise MachineryError("tolerance=0 is not distinguishable from the default on the tiny map: the option universe lost its teeth")
+    if cls("pairs", {"elide_short_roads": True}) in (None, cls("pairs", {})) or cls("pairs", {"ref_points": 10}) in (None, cls("pairs", {})):
+        raise MachineryError("elide_short_roads / ref_points are not distinguishable from the default on the tiny map")
     if cls("pairs-intersections", {"fill_intersections": False}) in (None, cls("pairs-intersections", {})):
         raise MachineryError("fill_intersections=False is not distinguishable from the default on the intersection map")
 
